@@ -611,6 +611,10 @@ CORPUS = [
     ("corpus:fold-intmin-mod", b"func main() -> int { (0-2147483647-1) % (0-1) }\n"),
     ("corpus:match-unknown-module-enum", b"use zzmissing\nfunc main() -> int {\n match (zzmissing.two()) {\n zzmissing.E::ONE -> 1;\n };\n 0 }\n"),
     ("corpus:ok", b"func main() -> int { 0 }\n"),
+    ("corpus:anonymous-extern", b"func main() -> int\n{\n    let system = let extern \"6\" func (cmd : string) -> float; system(\"unaa\");  0\n}\n"),
+    ("corpus:match-bind-count", b"enum E { A { x : int; y : int; }, B }\nfunc main() -> int { let e = E::A(1, 2); match (e) { E::A(p) -> p; E::B -> 0; } }\n"),
+    ("corpus:match-unknown-enumerator", b"enum E { A, B }\nfunc main() -> int { let e = E::A; match (e) { E::A -> 1; E::C -> 2; } }\n"),
+    ("corpus:ffi-tuple-unknown-record", b"extern \"libc.so.6\" func f(t : (int, Nosuch)) -> int\nfunc main() -> int { 0 }\n"),
     ("corpus:empty", b""),
     ("corpus:trailing-unterminated-string", b"func main() -> int { 0 } \"abc\n"),
     ("corpus:trailing-bad-octal", b"func main() -> int { 0 } \"a\\400b\""),
